@@ -44,6 +44,33 @@ checks={
    text="IsIPv4/IsIPv6/DecodedPort/Scheme/Query/Fragment/OpaquePath/IsSpecialScheme are checked against the primary getters and the Href shape in every state of the same exploration as C03/C04, plus the confluence oracle (same Href reached by parsing shows the same accessors).",
    note="Trusted: the standard's special-scheme/default-port table."),
 }
+
+checks.update({
+ "C02": dict(level="exploration", design="§5 C02", technique="bounded exhaustive exploration of inputs x option subsets x operation histories on an AST-instrumented build with a deterministic statement budget (non-termination detector)",
+   text="Every subset of <=2 (thorough 3) of the 32 public options plus the four profiles x a byte-level input core, all 2^14 flag vectors x a trigger core, Sigma_B^<=3 under every single option, every setter with every value of Sigma_B^<=2, and all histories of depth 2 over ~170 operations (incl. Iterate, SetSearchParams, NewUrl) under every single option/profile: no panic, no budget overrun, URL-with-working-getters xor error.",
+   note="Trusted: the generated statement counter. BasicParser is driven only in the argument combinations the library itself uses; nil pointers as arguments are outside 'argument strings'. Not covered: inputs longer than the bounds outside the menus; option subsets of size >=4 that are not flag vectors."),
+ "C06": dict(level="exploration", design="§5 C06", technique="bounded exhaustive enumeration of (base, reference) pairs with model-free relational oracles between the three resolution entry points",
+   text="Bases = 40-string menu + slot product (<=2, thorough 3 deviating slots); references = '', all '#f' / '?q' over Sigma^<=2, all scheme-less references over (Sigma minus ':')^<=k, and the serialization of every parsed base (B x B); the three entry points must agree and the five laws of the statement must hold for every pair.",
+   note="Implementation against itself; no model. Gives a model-independent cross-check of the with-base half of C01."),
+ "C14": dict(level="model_checking", design="§5 C14", technique="stateless model checking of the real code: all thread interleavings up to a preemption bound under a controlled scheduler with statement-level scheduling points, Go race detector as per-schedule oracle",
+   text="For every scenario (pairs of ~80 calls on shared package functions, Parsers, predefined profiles and shared base URLs; 3-thread and 2-calls-per-thread scenarios) all schedules with <=1 preemption (thorough 2) are executed on freshly built shared objects, plus one cold-process execution per scenario; oracles: race detector (hand-off creates no happens-before edge), result == solo result, package-level variables and shared URL observables unchanged, no panic.",
+   note="Trusted: Go race detector, verif/sched, verif/instr. Scheduling granularity is the statement; at most 3 threads, 2 calls each. SearchParams() and setters are writes by design and only used on thread-private URLs."),
+ "C15": dict(level="exploration", design="§5 C15", technique="bounded exhaustive enumeration of inputs x 4 diagnostic configurations with relational oracles",
+   text="Every (input, base) of the C01 spaces is parsed under default / reporting / fail-on-validation-error / both; acceptance and all observables are related as the statement says; error types are checked against the constants read from errors/*.go of the current tree; failure flags checked on returned errors and recorded entries.",
+   note="Weaker reading where the text is silent: under fail-on-validation-error a returned warning may carry Failure()=false."),
+ "C16": dict(level="exploration", design="§5 C16", technique="bounded exhaustive enumeration per clause (inputs x option combinations), reference model parameterised like the option for the effect clauses",
+   text="No-option parsers == default on the C01 spaces; all 72 remove/sort/default-scheme combinations against the documented composition (setters + stable sort + scheme retry decided by the model's missing-scheme verdict); neutrality of the six conservative-extension options alone and in pairs on all inputs without the trigger; replaced encode sets and special-scheme maps against the model parameterised the same way; collapse postcondition; skip-equals on all lists of <=3 pairs.",
+   note=MODEL_NOTE+"Trigger predicates are over-approximations. Known finding KF-serializer-delims-sort is matched narrowly. Options without a specification are only covered by C02."),
+ "C17": dict(level="exploration", design="§5 C17", technique="bounded exhaustive enumeration: canon(canon(x)) == canon(x) over input spaces x profiles; ordinary-web-URL grammar enumerated completely within a slot-deviation bound",
+   text="WhatWg/WhatWgSortQuery/repeated-decoding on the C01 no-base spaces, all 144 composed profiles on a 14k-input space, GoogleSafeBrowsing and Semantic on every URL of the grammar with <=2 (thorough 3) deviating slots, text slots over all 1261 bodies x spellings.",
+   note="Known finding KF-serializer-delims-idem (sorting profiles, decoded pairs containing % & + =). Parameter names are read as non-empty."),
+ "C18": dict(level="exploration", design="§5 C18", technique="metamorphic bounded exhaustive enumeration: every combination of <=v listed spelling variations on every URL of the grammar must canonicalize like the plain spelling",
+   text="All plain URLs with <=2 deviating slots x every combination of <=2 (thorough 3) of the 8 variation kinds with every alternative each, under GoogleSafeBrowsing, Semantic and composed profiles with repeated decoding; the standard-normalised kinds under WhatWg, WhatWgSortQuery and composed profiles.",
+   note="Variation kinds exactly as listed in the statement; nested encodings only for unreserved characters of the original bodies."),
+ "C20": dict(level="exploration", design="§5 C20", technique="exhaustive enumeration of a declared repetition-family space with deterministic cost counters (executed statements, allocated bytes), growth-ratio oracle",
+   text="Every fragment of Sigma^<=2 (plus 20 structural fragments) repeated n and 4n times in each of 22 slots; Parse + all getters + SearchParams (+ setters / list operations) measured with the AST statement counter and runtime.MemStats.TotalAlloc; cost(4n)/cost(n) <= 8 for both.",
+   note="Asymptotic claims are outside any bounded method: decided is the property's own operationalisation (growth between n and 4n) over the declared family space. No wall-clock oracle."),
+})
 pending={i:"check not built yet in this round (work in progress; see DESIGN.md §5 for the planned decision procedure)" for i in ALL if i not in checks}
 m={"version":1,
  "setup_cmd":"./run.sh setup",
@@ -52,6 +79,9 @@ m={"version":1,
  "engines":[
   {"name":"E1 reference model","path":"model/","serves_properties":["C01","C03","C04","C05","C07","C08","C09","C10","C11","C12","C16","C19"],"kind_free_text":"executable transcription of the WHATWG URL Standard (Go), validated against vendored WPT vectors on every run"},
   {"name":"E2 enumerators","path":"enum/","serves_properties":ALL,"kind_free_text":"complete enumerators: Sigma^<=k after prefixes, slot products, edit balls, option subsets"},
+  {"name":"E3 history explorer","path":"checks/world.go","serves_properties":["C02","C03","C04","C05","C11","C12","C13","C19"],"kind_free_text":"explicit-state BFS over operation histories on the real objects; state = shortest history, successors by replay, dedup by generic deep snapshot (snap/)"},
+  {"name":"E4 schedule explorer","path":"sched/","serves_properties":["C14"],"kind_free_text":"cooperative scheduler with race-invisible hand-off, iterative preemption bounding, cold replay processes"},
+  {"name":"overlay instrumenter","path":"instr/","serves_properties":["C02","C14","C20"],"kind_free_text":"go/ast rewrite of the current tree: statement hooks + package-level variable enumeration, injected with go build -overlay"},
   {"name":"harness","path":"fw/","serves_properties":ALL,"kind_free_text":"sharded worker processes, 5x violation confirmation through the replay evaluator, known-findings matching, evidence"},
  ],
  "checks":[], "not_applicable":[], "notes":"All checks: ./run.sh <ID> quick|thorough; replay: ./run.sh replay <path>. Exit 2 = check broken (build failure, model fails WPT validation, non-reproducible finding)."}
